@@ -306,6 +306,7 @@ func resolveRoles(w *World) *Roles {
 	}
 	// the state change may sit in a small helper (a method of the job, say) with a single caller:
 	// the role is the operation that helper belongs to
+	startsRaw := append([]*ssa.Function(nil), starts...)
 	starts, completes = ro.liftSingleCaller(starts), ro.liftSingleCaller(completes)
 	if ro.Start = one(starts); ro.Start == nil {
 		ro.fail("start function (stores a non-nil PipelineJob.Start) not unique: %s", names(starts))
@@ -314,16 +315,23 @@ func resolveRoles(w *World) *Roles {
 		ro.fail("completion handler (stores Completed = true) not unique: %s", names(completes))
 	}
 	if ro.Start != nil {
-		allInstrs(ro.Start, func(in ssa.Instruction) {
-			if g, ok := in.(*ssa.Go); ok {
-				// the scheduling goroutine: a closure of the start function, or a method it launches
-				if f := funcValue(g.Call.Value); f != nil && f.Parent() == ro.Start {
-					ro.StartGo = f
-				} else if f := g.Call.StaticCallee(); f != nil && w.InModule(f) && f.Blocks != nil {
-					ro.StartGo = f
-				}
+		// (the goroutine may be spawned in the single-caller helper that holds the Start store — `runJob(job, graph)`)
+		for _, host := range append([]*ssa.Function{ro.Start}, startsRaw...) {
+			host := host
+			if ro.StartGo != nil {
+				break
 			}
-		})
+			allInstrs(host, func(in ssa.Instruction) {
+				if g, ok := in.(*ssa.Go); ok {
+					// the scheduling goroutine: a closure of the start function, or a method it launches
+					if f := funcValue(g.Call.Value); f != nil && f.Parent() == host {
+						ro.StartGo = f
+					} else if f := g.Call.StaticCallee(); f != nil && w.InModule(f) && f.Blocks != nil {
+						ro.StartGo = f
+					}
+				}
+			})
+		}
 		// graph builder: callee of Start returning (*ExecutionGraph, error)
 		allInstrs(ro.Start, func(in ssa.Instruction) {
 			if c, ok := in.(*ssa.Call); ok {
